@@ -100,7 +100,7 @@ let () =
                  match Stdlib.String.split_on_char '=' c with
                  | [n; v] -> Client.with_cookie st (bytes_of_hex n, bytes_of_hex v)
                  | _ -> failwith "cookie") st (Stdlib.String.split_on_char '+' cookies) in
-         let st = Client.with_redirects st (follow = "1") in
+         let st = if follow = "d" then st else Client.with_redirects st (follow = "1") in
          let (res, tr) = Client.send resolves net (nat_of_int 64) st in
          let log = Stdlib.List.filter_map (fun ((https, h), req) ->
              if https then None else
